@@ -41,7 +41,7 @@ func TestC32(t *testing.T) {
 		return
 	}
 	// bounded-exhaustive part
-	stride := uint64(ev.Scale(128, 1))
+	stride := uint64(scale(128, 1))
 	seed := ev.Seed()
 	enumerate(t, c, "C32", profiles(), alphabet(), 2, func(idx uint64) bool { return mixSeed(idx^seed)%stride == 0 }, c32Nontrivial, false)
 	// random part: random outcome tables, histories up to 12 requests over the full alphabet
